@@ -29,7 +29,8 @@ RULE = (
     "chosen independently at each level: value, name, binding, list, integer fields, PDU, "
     "community, scoped PDU, header, security parameters, message; request-id over the "
     "Integer32 range and error-index over Integer32 with error-status 0; agents announcing "
-    "msgMaxSize 484 / 1472 / 65507 / 2^31-1; v1, v2c and five v3 "
+    "msgMaxSize 484 / 1472 / 65507 / 2^31-1; responses of exactly 65505, 65506 and 65507 "
+    "octets (the largest UDP/IPv4 payload) on every level; v1, v2c and five v3 "
     "levels. Oracle: result types/values == what vf.ber reads from the same response bytes. "
     "Second half: bytes(Message.decode(x)), bytes(ScopedPDU.decode(x)), "
     "bytes(USMSecurityParameters.decode(x)), bytes(decoded PDU) re-read by vf.ber carry the "
@@ -40,7 +41,7 @@ ASSUMPTIONS = [
     "well-formed = what vf.ber's strict decoder accepts (definite lengths, <= 4 length octets)",
     "re-encodings need not be byte-identical, only equal in content under the independent decoder",
 ]
-REQUIRED_MONITORS = ("values_delivered_exact", "nonminimal_forms_used", "reencode_message_ok", "reencode_pdu_ok", "reencode_usm_ok", "reencode_scoped_ok")
+REQUIRED_MONITORS = ("values_delivered_exact", "max_datagram_levels", "nonminimal_forms_used", "reencode_message_ok", "reencode_pdu_ok", "reencode_usm_ok", "reencode_scoped_ok")
 
 FORM_KEYS = ("val", "oid", "vb", "vbl", "int", "pdu", "community", "msg", "usm", "spdu", "header", "sec", "enc")
 BOUNDS = [7, 8, 15, 16, 23, 24, 31, 32, 39, 40, 47, 48, 55, 56, 63]
@@ -256,9 +257,12 @@ def run_case(R, level, values, forms, rid=None, err_index=0, label="gen", max_si
         return
     R.mon["values_delivered_exact"] += 1
     R.mon["bindings_delivered"] += len(got)
+    if len(resp) >= 65500:
+        R.mon["responses_of_%d_octets" % len(resp)] += 1
     reencode_checks(R, case, resp)
     for req in w.seam.requests[-1:]:
         reencode_checks(R, case, req)
+    return len(resp)
 
 
 def run(R):
@@ -299,6 +303,24 @@ def run(R):
                 run_case(R, level, vals, None if f is None else {k: f for k in FORM_KEYS}, label="grid")
         for val in (("oid", (2, 40, 1)), ("oid", (2, 999, 3))):
             run_case(R, "v2c", [val], None, label="class")
+    if R.shard == 2 % R.nshards:
+        # the largest datagrams UDP over IPv4 can carry: 65507 octets and the two sizes below
+        for level in rig.LEVELS:
+            x = 35000
+            hit = set()
+            for _ in range(8):
+                size = run_case(R, level, [("str", b"a" * 30000), ("str", b"b" * x)], None, label="max-datagram")
+                if size is None:
+                    break
+                hit.add(size)
+                want = next((t for t in (65507, 65506, 65505) if t not in hit), None)
+                if want is None:
+                    break
+                x += want - size
+            if not {65505, 65506, 65507} <= hit:
+                R.mon["max_datagram_sizes_not_reached"] += 1
+            else:
+                R.mon["max_datagram_levels"] += 1
     typecontracts.report(R, contracts, decide=False)
     for c in contracts:
         c.detach()
